@@ -25,7 +25,7 @@ import numpy as np
 from vlib import cli, datasets, env, gen, hapvcf, vcfparse
 
 ID = "C08"
-TECHNIQUE = "runtime monitoring of real mchap processes: stdout/exit status under varied --cores with injected worker delays (distinct output orders recorded), permuted/sub-setted loci, in-process history perturbation of call_locus, natural and injected failing loci at every position"
+TECHNIQUE = "runtime monitoring of real mchap processes: stdout/exit status under varied --cores with injected worker delays (distinct output orders recorded), permuted/sub-setted loci, in-process history perturbation of call_locus, natural and injected failing loci at every position; exhaustive (--cores 2..16) x (number of loci) grid in-process with the real pool/queue/forked writer; haplotype files with masked references / zero priors and filter / prior option variants"
 LEVEL = "fault_enumeration"
 LEVEL_TEXT = (
     "Exploration plus fault enumeration: on generated datasets (5-8 loci, 3 samples) the four calling programs were run as real "
@@ -42,6 +42,7 @@ RULE = (
     "case = one program run (argv) or one call_locus history; non-trivial = run with >1 core, or a permuted/sub-setted/history-"
     "perturbed run, or a fault run; distinct by hash of (dataset id, program, argv tail, injection)"
 )
+LEVEL_TEXT += ' Every (--cores 2..16, 1..48 loci; 1..96 in the thorough tier) pair was run in-process with the real pool, queue and forked writer (each locus exactly once, records equal to the single-core run); the haplotype files carry masked references and zero priors and the order / subset / history comparisons are repeated under --filter-input-haplotypes and --prior-frequencies.'
 ASSUMPTIONS = ["--mcmc-seed fixed per run", "the haplotype VCF must stay coordinate-sorted, so only subsets (not permutations) of its records are used"]
 PROGRAMS = ["assemble", "call", "call-exact", "call-pedigree"]
 MCMC = ["--mcmc-steps", "120", "--mcmc-burn", "60"]
